@@ -11,5 +11,7 @@ if [ -f tools/gen_params.py ]; then python3 tools/gen_params.py /repo coq/Genera
 cp coq/model.ml coq/model.mli ocaml/
 ( cd ocaml && ocamlfind ocamlopt -w -a -O3 model.mli model.ml driver.ml -o runner )
 cp /repo/go.sum harness/go.sum
-( cd harness && CGO_ENABLED=0 go build -tags verif -o harness . )
+( cd harness && CGO_ENABLED=0 go build -tags verif -o harness . && CGO_ENABLED=1 go build -race -tags verif -o harness_race . )
+mkdir -p .work/bin
+( cd /repo && go build -o /verif/.work/bin/ ./go/bundle/cmd/... ./go/signedexchange/cmd/... )
 echo setup done
